@@ -86,6 +86,7 @@ type ctxKey string
 
 const (
 	KeyP    ctxKey = "verif.p"    // producer thread id
+	KeyCall ctxKey = "verif.call" // per-producer call number (identifies the producing call of a callback)
 	KeySub  ctxKey = "verif.sub"  // marker attached at SubscribeWithContext
 	KeyMid  ctxKey = "verif.mid"  // marker attached mid-pipeline by a context operator
 	KeyCb   ctxKey = "verif.cb"   // marker attached by a context-aware callback
@@ -94,6 +95,18 @@ const (
 )
 
 func WithP(ctx context.Context, p int) context.Context { return context.WithValue(ctx, KeyP, p) }
+
+func WithCall(ctx context.Context, i int) context.Context { return context.WithValue(ctx, KeyCall, i) }
+
+func CallOfCtx(ctx context.Context) int {
+	if ctx == nil {
+		return -1
+	}
+	if v, ok := ctx.Value(KeyCall).(int); ok {
+		return v
+	}
+	return -1
+}
 
 func PofCtx(ctx context.Context) int {
 	if ctx == nil {
